@@ -9,6 +9,12 @@
    real registered server object with a capturing upstream client for the bulk), mapShardIDUnique and
    WorkflowIDToHistoryShard are evaluated; one NDJSON record per (l, r, direction, shard id).  TLC (LcmMapObs) judges
    every record.
+3. Two further dimensions of the binding (the design's Map is a function of the id alone, and the shard-count override is
+   independent of the other response translation):
+   - arrival order: for pairs with LCM > 1024 fresh server objects are opened with a high id first and then every id of
+     1000..1024+SWEEP ascending, descending and in seeded random order, plus state-guided opens at the borders (len, cap)
+     of the counter slice the server object has at that moment;
+   - failoverVersionIncrementTranslation configured on neither / the local / the remote / both sides, by pair.
 """
 import json
 import os
@@ -32,10 +38,13 @@ MANIFEST = {"C07": dict(
     text="Exhaustive within the small model: reported count = lcm in both directions, server shard in 1..count, client shard = s, "
          "hash consistency over two periods of residues, MapShardID single-valued. On the real code: all pairs <= 16 with "
          "every LCM shard id, all pairs of powers of two <= 16384, {3*2^k} x {2^j} in both orders, {1000,4000,4096,5000,"
-         "10000,16384}^2 with boundary ids and seeded samples (half of them owners of random workflow ids under the real hash).",
+         "10000,16384}^2 with boundary ids and seeded samples (half of them owners of random workflow ids under the real hash). "
+         "Arrival order of the ids on one server object (high id first, then contiguous ascending / descending / random sweeps "
+         "across the growth of the stream observer, state-guided opens at its len/cap borders) and the FVI translation "
+         "(none / local / remote / both) are dimensions of the binding.",
     note="Trusted: TLC, the fake clusters (grpc servers that record stream metadata), reflection into grpc.Server to reach the "
-         "registered service object. The pair (16384,14565) has LCM >= 238609294 and runs into the C20 overflow of the stream "
-         "observer (listed as a finding of C07 with the same cause).")}
+         "registered service object, in-package reads of len/cap of ReplicationStreamObserver.streamActive (input selection "
+         "only). A stream open counts as failed only after 20 s (60 s for ids > 2^24, which allocate up to 1 GB of counters).")}
 HARNESS = ["zz_verif_lcm_test.go"]
 OBS_RE = re.compile(r'<<(\d+), "(\w+)">>')
 SIX = [1000, 4000, 4096, 5000, 10000, 16384]
@@ -47,6 +56,7 @@ CHUNK = 120000             # records per LcmMapObs run
 ORDER_PAIRS = [(3, 1024), (1024, 3), (5, 512), (512, 5), (1024, 2048), (4096, 10000), (12288, 16384), (16384, 1000)]
 SWEEP = {"quick": 2500, "thorough": 6000}
 FRONTIER = {"quick": 12, "thorough": 40}     # state-guided opens per server object for every big pair (vlPair.Frontier)
+FVI_VARIANTS = [[0, 0], [10, 0], [0, 20], [10, 20]]
 EXTREME = [(16384, 14565), (14565, 16384)]     # LCM = 238632960: the first LCM shard ids the stream observer cannot count
 
 
@@ -92,6 +102,10 @@ def pair_list(tier):
         pairs.append(pr)
     for (l, r) in EXTREME:
         pairs.append(dict(l=l, r=r, mode="boundary", n=0, grpc=0))
+    # configuration dimension: the other response translation of DescribeCluster (failoverVersionIncrementTranslation) is
+    # configured on neither / the local / the remote / both sides; it must not interfere with the shard-count override
+    for p in pairs:
+        p["fvi"] = FVI_VARIANTS[(p["l"] * 31 + p["r"]) % 4]
     return pairs
 
 
@@ -171,6 +185,9 @@ def run(c, a):
     rs = c.tlc("LcmMap", "LcmMap", "lcm_swapped.cfg", workers=4, timeout=120, name="design-swapped")
     if not rs.violated:
         raise Broken("seeded design error (SwapDirs) not reported: invariants are vacuous")
+    rf = c.tlc("LcmMap", "LcmMap", "lcm_fviexcl.cfg", workers=4, timeout=120, name="design-fviexcl")
+    if not rf.violated:
+        raise Broken("seeded design error (FviExcl) not reported: ReportedOK does not see the translation overrides")
     proof = tlaps(c) if thorough else {"attempted": False, "reason": "thorough tier only"}
     # ---- 2. binding
     pairs = pair_list(c.tier)
@@ -183,6 +200,8 @@ def run(c, a):
         else:
             pairs = [dict(l=rec["l"], r=rec["r"], mode="ids", ids=[rec.get("s", 1)], n=0,
                           grpc=1 if rec.get("path") == "grpc" else 0)]
+        for p in pairs:
+            p["fvi"] = FVI_VARIANTS[(p["l"] * 31 + p["r"]) % 4]
     binpath = c.go_test_build("proxy", HARNESS, name="lcm")
     # cost-balanced shards: pairs with many ids first, round robin
     def cost(p):
@@ -236,7 +255,7 @@ def run(c, a):
             t.join()
     nrec = not_run = 0
     by_kind, by_path, clauses = {}, {}, {}
-    by_order, gap_hits, growths = {}, {}, {}
+    by_order, gap_hits, growths, by_fvi = {}, {}, {}, {}
     nontrivial = set()
     with_wf = 0
     viol_pairs = set()
@@ -273,6 +292,9 @@ def run(c, a):
             if e["ev"] == "stream" and e["fail"] == "skipped-wedged":
                 not_run += 1
             by_kind[e["ev"]] = by_kind.get(e["ev"], 0) + 1
+            if e["ev"] == "describe":
+                k = "local=%d remote=%d" % (e.get("fviLocal", 0), e.get("fviRemote", 0))
+                by_fvi[k] = by_fvi.get(k, 0) + 1
             if e["ev"] == "stream":
                 by_path[e["path"]] = by_path.get(e["path"], 0) + 1
                 c_own = e["l"] if e["dir"] == "inbound" else e["r"]
@@ -292,7 +314,7 @@ def run(c, a):
             rp = {"kind": "lcm-record", "clause": clause, "record": e,
                   "how": "./check C07 --replay <this file>: the pair of this record, for an arrival-order scenario the same "
                          "ids in the same order on a fresh server object"}
-            if e["ev"] == "stream" and e.get("order", "base") != "base":
+            if e["ev"] == "stream" and e.get("order", "base") != "base" and len(c.violations) < 3:   # only these are written out
                 so = (e["l"], e["r"], e["dir"], e["order"])
                 rp["arrival"] = [json.loads(lines[x])["s"] for x in arrivals[so] if x <= ln - 1]
             c.violation(classify(e, clause, overflowed_at.get((e["l"], e["r"], e.get("dir")), 1 << 60) < ln),
@@ -305,7 +327,7 @@ def run(c, a):
         "opens_between_len_and_cap_of_an_earlier_growth": gap_hits,
         "stream_records_with_workflow_ids": with_wf, "stream_records_not_run_server_wedged": not_run, "violating_clauses": clauses,
         "pairs_with_violation": len(viol_pairs), "design_states": design_states, "design_cfg": cfg,
-        "seeded_design_error_reported": rs.violated, "tlaps": proof,
+        "seeded_design_error_reported": rs.violated + rf.violated, "describe_records_by_fvi_translation": by_fvi, "tlaps": proof,
         "evaluations": nrec, "distinct_nontrivial": len(nontrivial),
         "rule": "one record per (l, r, direction, LCM shard id): all ids for l,r<=16%s, boundary ids {1,L,c,c+1,L-c+1} plus "
                 "seeded samples (half of them owners of random workflow ids) for powers of two and mixed composites up to 16384; "
